@@ -2,7 +2,7 @@
 From Coq Require Import List ZArith Bool QArith Qreduction.
 From NT Require Import Sx Rose.
 From NT Require Export RandomTree.
-From NT Require Import RandomTreeProofs.
+From NT Require Import RandomTreeProofs RandomTreeComplete.
 Import ListNotations.
 Open Scope Z_scope.
 
@@ -44,7 +44,7 @@ Fixpoint sx_gt (typed : bool) (t : gt) : sx :=
 (* the hypotheses of the C20 theorems, decided: the case is inside their domain *)
 Definition in_domain (d : sdef) (fuel : Z) (rk : list (text * Z)) : bool :=
   let rkf := rk_of (map (fun p => (fst p, Z.to_nat (snd p))) rk) in
-  def_wfb d && rank_okb d rkf && Nat.ltb (rkf K_root) (Z.to_nat fuel) && mem K_root (d_rels d).
+  def_wf2b d && rank_okb d rkf && Nat.ltb (rkf K_root) (Z.to_nat fuel) && mem K_root (d_rels d).
 
 Definition run20 (c : case) : sx :=
   match c with
